@@ -1,6 +1,7 @@
 package smtp
 
 import (
+	"bytes"
 	"crypto/tls"
 	"encoding/base64"
 	"errors"
@@ -35,11 +36,11 @@ type Conn struct {
 	locker     sync.Mutex
 	binarymime bool
 
-	lineLimitReader *lineLimitReader
-	bdatPipe        *io.PipeWriter
-	bdatStatus      *statusCollector // used for BDAT on LMTP
-	dataResult      chan error
-	bytesReceived   int64 // counts total size of chunks when BDAT is used
+	lineTooLong   bool // a command line exceeded Server.MaxLineLength
+	bdatPipe      *io.PipeWriter
+	bdatStatus    *statusCollector // used for BDAT on LMTP
+	dataResult    chan error
+	bytesReceived int64 // counts total size of chunks when BDAT is used
 
 	fromReceived bool
 	recipients   []string
@@ -58,16 +59,12 @@ func newConn(c net.Conn, s *Server) *Conn {
 }
 
 func (c *Conn) init() {
-	c.lineLimitReader = &lineLimitReader{
-		R:         c.conn,
-		LineLimit: c.server.MaxLineLength,
-	}
 	rwc := struct {
 		io.Reader
 		io.Writer
 		io.Closer
 	}{
-		Reader: c.lineLimitReader,
+		Reader: c.conn,
 		Writer: c.conn,
 		Closer: c.conn,
 	}
@@ -968,9 +965,7 @@ func (c *Conn) handleBdat(arg string) {
 		if sizeErr != nil {
 			return
 		}
-		c.lineLimitReader.LineLimit = 0
 		io.Copy(ioutil.Discard, io.LimitReader(c.text.R, int64(size)))
-		c.lineLimitReader.LineLimit = c.server.MaxLineLength
 	}
 
 	if len(args) > 2 {
@@ -1059,8 +1054,6 @@ func (c *Conn) handleBdat(arg string) {
 		}()
 	}
 
-	c.lineLimitReader.LineLimit = 0
-
 	chunk := io.LimitReader(c.text.R, int64(size))
 	_, err := io.Copy(c.bdatPipe, chunk)
 	if err != nil {
@@ -1084,15 +1077,10 @@ func (c *Conn) handleBdat(arg string) {
 		}
 
 		c.reset()
-		c.lineLimitReader.LineLimit = c.server.MaxLineLength
 		return
 	}
 
 	c.bytesReceived += int64(size)
-
-	// The chunk is over: command lines are limited in length again, also
-	// between the chunks of a message.
-	c.lineLimitReader.LineLimit = c.server.MaxLineLength
 
 	if last {
 		c.bdatPipe.Close()
@@ -1337,7 +1325,39 @@ func (c *Conn) readLine() (string, error) {
 		}
 	}
 
-	return c.text.ReadLine()
+	// The length limit applies to command lines, not to whatever a single
+	// read from the network happens to return: message data and BDAT chunks
+	// are not read through here, and a line is refused as soon as it is too
+	// long, before its end has been seen.
+	if c.lineTooLong {
+		return "", ErrTooLongLine
+	}
+	var line []byte
+	for {
+		if _, err := c.text.R.Peek(1); err != nil {
+			// An unterminated line is not a command.
+			return "", err
+		}
+		buf, _ := c.text.R.Peek(c.text.R.Buffered())
+		i := bytes.IndexByte(buf, '\n')
+		if i >= 0 {
+			buf = buf[:i+1]
+		}
+		line = append(line, buf...)
+		c.text.R.Discard(len(buf))
+		if limit := c.server.MaxLineLength; limit > 0 && len(line) > limit {
+			c.lineTooLong = true
+			return "", ErrTooLongLine
+		}
+		if i >= 0 {
+			break
+		}
+	}
+	line = line[:len(line)-1]
+	if len(line) > 0 && line[len(line)-1] == '\r' {
+		line = line[:len(line)-1]
+	}
+	return string(line), nil
 }
 
 func (c *Conn) reset() {
